@@ -116,6 +116,10 @@ class IASolverBaseClass:  # pylint: disable=R0902
         """
         self._F = None
         self._full_F = None
+        # The full receive filters compensate the equivalent channel, which
+        # includes the precoder: they are not valid for another precoder.
+        self._full_W_H = None
+        self._full_W = None
 
     def clear(self) -> None:
         """
